@@ -246,9 +246,18 @@ Theorem C14_history_reload : forall fe P o0,
 Proof. exact ps_history_reload. Qed.
 Print Assumptions C14_history_reload.
 
-(* values all of whose numbers have at most six fractional digits (any nesting of arrays and dictionaries) come back
-   unchanged from ConfigWriter::EmitNumber + lexer *)
-Theorem C14_modattr_six_decimals : forall v, ps_six v = true -> ps_writer_codec v = v.
+(* THE WRITER PREMISE HOLDS FOR EVERY VALUE.  ps_top_ok / ps_listed_ok above ask that the listed value survives
+   ConfigWriter::EmitNumber + lexer.  Since fix 1e5729f (finding modattr-number-precision, now fixed) the writer emits
+   six decimals and more only while the text does not read back as the same number; the model reads which form the
+   source has from the regenerated fact f_cw_number_roundtrip, and for the form it has now every value - any number of
+   fractional digits, any nesting - comes back unchanged.  (Stops compiling when EmitNumber changes shape.) *)
+Theorem C14_writer_codec_identity : forall v, ps_writer_codec v = v.
+Proof. exact ps_codec_id. Qed.
+Print Assumptions C14_writer_codec_identity.
+
+(* the writer as pinned (always six decimals): values all of whose numbers have at most six fractional digits (any
+   nesting of arrays and dictionaries) came back unchanged ... *)
+Theorem C14_modattr_six_decimals : forall v, ps_six v = true -> ps_writer_codec_m false v = v.
 Proof. exact ps_six_codec. Qed.
 Print Assumptions C14_modattr_six_decimals.
 
@@ -259,13 +268,21 @@ Theorem C14_modattr_dump_throws_refuted :
 Proof. exact ps_dump_modattrs_throws_refuted. Qed.
 Print Assumptions C14_modattr_dump_throws_refuted.
 
+(* ... and every other number did not (the recorded finding, on the pinned form of the writer) *)
 Theorem C14_modattr_number_precision_refuted :
+  ps_writer_codec_m false (PsNum 1234567 7) = PsNum 123457 6 /\ ps_writer_codec_m false (PsNum 1 7) = PsNum 0 0 /\
+  ps_writer_codec_m false (PsDict [([97], PsArr [PsNum 1234567 7])]) = PsDict [([97], PsArr [PsNum 123457 6])].
+Proof. exact ps_modattr_precision_refuted. Qed.
+Print Assumptions C14_modattr_number_precision_refuted.
+
+(* the former witness on the source as it is now: modify vars.a to 0.1234567, dump, reload - 0.1234567 *)
+Theorem C14_modattr_number_precision_fixed :
   let o := ps_w_obj (PsDict [([97], PsNum 1 0)]) in
   let o1 := snd (ps_modify_attribute ps_w_fe ps_w_path_a (PsNum 1234567 7) true 1%Z o) in
   exists script, ps_dump_modattrs o1 = Some script /\
-    ps_get_attr ps_w_path_a (snd (ps_replay_modattrs ps_w_fe script 1%Z 9%Z o)) = PsNum 123457 6.
-Proof. exact ps_modattr_precision_refuted. Qed.
-Print Assumptions C14_modattr_number_precision_refuted.
+    ps_get_attr ps_w_path_a (snd (ps_replay_modattrs ps_w_fe script 1%Z 9%Z o)) = PsNum 1234567 7.
+Proof. exact ps_modattr_precision_fixed. Qed.
+Print Assumptions C14_modattr_number_precision_fixed.
 
 (* ---------------------------------------------------------------- crash atomicity *)
 (* kill at any instant of a persisting write: for every prefix of the system-call trace (stale temp files removed,
